@@ -69,11 +69,13 @@ def mk_batches(ex, st, shape, symbolic_kinds=False):
     return out
 
 
-def run_recover(ctx, n_ks=2, shape=((2, 0), (1, 1)), loop_bound=None, symbolic_kinds=False):
+def run_recover(ctx, n_ks=2, shape=((2, 0), (1, 1)), loop_bound=None, symbolic_kinds=False, sealed_shape=None):
     """returns (executor, paths, env)"""
     fn = ctx.prog.find(r'^db::<impl>::recover$')
     env = Env()
     env.ks = []; env.batches = []
+    env.sealed = sealed_shape is not None
+    rd_shape = sealed_shape if env.sealed else shape
     env.meta_persisted = (z3.Bool('meta.has_persisted'), z3.BitVec('meta.persisted', 64))
 
     def ov_ok_unit(ex, st, call):
@@ -92,7 +94,12 @@ def run_recover(ctx, n_ks=2, shape=((2, 0), (1, 1)), loop_bound=None, symbolic_k
         names = ex.src.struct_fields('journal::recovery::RecoveryResult')
         j = Obj('journal::Journal', 'active_journal', 'struct')
         rr.fields[names.index('active')] = Cell(j)
-        rr.fields[names.index('sealed')] = Cell(mk_seq('Vec<(u64, PathBuf)>', [], 'sealed'))
+        sealed_items = []
+        if env.sealed:
+            tup = Obj('(u64, PathBuf)', 'sealed0', 'tuple')
+            tup.fields[0] = Cell(bv(0)); tup.fields[1] = Cell(Obj('std::path::PathBuf', 'sealed0.path', 'opaque'))
+            sealed_items.append(tup)
+        rr.fields[names.index('sealed')] = Cell(mk_seq('Vec<(u64, PathBuf)>', sealed_items, 'sealed'))
         rr.fields[names.index('was_active_created')] = Cell(z3.BoolVal(False))
         st.emit(Ev('JOURNAL_RECOVER', site=call.site))
         return ex.mk_enum(call.dst_ty, 'Ok', [rr])
@@ -149,18 +156,101 @@ def run_recover(ctx, n_ks=2, shape=((2, 0), (1, 1)), loop_bound=None, symbolic_k
         return mine
     env.ks_specs = ks_specs
 
-    def ov_get_reader(ex, st, call):
+    def mk_reader(ex, st, empty=False):
         r = Obj('journal::batch_reader::JournalBatchReader', 'reader', 'opaque')
+        if empty:
+            r.data['batches'] = []; r.data['pos'] = 0
+            return r
         if not env.batches:
             n0 = len(st.pc)
-            mine = env.batches = mk_batches(ex, st, shape, symbolic_kinds)
+            mine = env.batches = mk_batches(ex, st, rd_shape, symbolic_kinds)
             env.batch_axioms = st.pc[n0:]
         else:
-            n0 = len(st.pc)
-            mine = mk_batches(ex, st, shape, symbolic_kinds)      # a path that forked before the first reader was created
+            mine = mk_batches(ex, st, rd_shape, symbolic_kinds)      # a path that forked before the first reader was created
         r.data['batches'] = [b['obj'] for b in mine]; r.data['pos'] = 0
+        return r
+
+    def ov_get_reader(ex, st, call):
+        r = mk_reader(ex, st, empty=env.sealed)
         st.emit(Ev('GET_READER', site=call.site))
         return ex.mk_enum(call.dst_ty, 'Ok', [r])
+
+    def ov_raw_reader_new(ex, st, call):
+        st.emit(Ev('SEALED_READER', site=call.site))
+        return ex.mk_enum(call.dst_ty, 'Ok', [Obj('journal::reader::JournalReader', 'raw_reader', 'opaque')])
+
+    def ov_batch_reader_new(ex, st, call):
+        return mk_reader(ex, st)
+
+    def ov_metadata(ex, st, call):
+        return ex.mk_enum(call.dst_ty, 'Ok', [Obj('std::fs::Metadata', 'metadata', 'opaque')])
+
+    def ov_metadata_len(ex, st, call):
+        return z3.BitVec(f'journal_size!{next(st.fresh)}', 64)
+
+    def mem_of(t):
+        if isinstance(t, EnumV):
+            t = t.data.setdefault('as_obj', Obj(t.ty, t.name))
+        return t
+
+    def ov_rotate(ex, st, call):
+        """E8: the active memtable holds what was inserted since the last clear / rotation; rotating an empty memtable yields None"""
+        t = mem_of(deref(call.args[0]))
+        if not isinstance(t, Obj) or 'persisted' not in t.data:
+            return NotImplemented
+        mem = t.data.get('mem', [])
+        if not mem:
+            e = ex.mk_enum(call.dst_ty, 'None')
+            st.emit(Ev('T_ROTATE_EMPTY', obj=t, res=e, site=call.site))
+            return e
+        mx = mem[0]
+        for s_ in mem[1:]:
+            mx = z3.If(z3.UGE(mx, s_), mx, s_)
+        mt = Obj('lsm_tree::Memtable', t.name + '.sealed_memtable', 'opaque'); mt.data['highest'] = mx
+        arc = Obj('Arc<Memtable>', 'arc', 'struct'); arc.fields['ptr'] = Cell(mt)
+        t.data['mem'] = []
+        e = ex.mk_enum(call.dst_ty, 'Some', [arc])
+        st.emit(Ev('T_ROTATE', obj=t, res=e, site=call.site))
+        return e
+
+    def ov_clear_active(ex, st, call):
+        t = mem_of(deref(call.args[0]))
+        if isinstance(t, Obj):
+            t.data['mem'] = []
+            st.emit(Ev('T_CLEAR_ACTIVE', obj=t, site=call.site))
+        return ex.unit()
+
+    def ov_memtable_q(ex, st, call):
+        m = deref(call.args[0])
+        kind = call.c0.rsplit('::', 1)[-1]
+        if isinstance(m, Obj) and 'highest' in m.data:
+            if kind == 'get_highest_seqno':
+                return ex.mk_enum(call.dst_ty, 'Some', [m.data['highest']])
+            if kind == 'size':
+                return z3.BitVec(f'memtable_size!{next(st.fresh)}', 64)
+        return NotImplemented
+
+    def ov_enqueue(ex, st, call):
+        item = deref(call.args[1])
+        wms = None
+        try:
+            inames = ex.src.struct_fields('journal::manager::Item')
+            seq = deref(item.fields[inames.index('watermarks')].val)
+            from ..contract import seq_items
+            its = seq_items(seq)
+            wn = ex.src.struct_fields('journal::manager::EvictionWatermark')
+            wms = []
+            for c in its:
+                w = deref(c.val)
+                ksh = deref(w.fields[wn.index('keyspace')].val)
+                from .c05 import find_objs
+                inner = find_objs(ksh, lambda o: o.ty.split('<')[0].endswith('KeyspaceInner'))
+                wms.append((inner[0].name.rstrip("'") if inner else '?', w.fields[wn.index('lsn')].val))
+        except Exception as e_:      # noqa
+            st.notes.append(f'ENQUEUE_SHAPE:{e_!r}')
+            wms = None
+        st.emit(Ev('JM_ENQUEUE', args={'watermarks': wms}, site=call.site))
+        return ex.unit()
 
     def ov_reader_next(ex, st, call):
         r = deref(call.args[0])
@@ -168,6 +258,7 @@ def run_recover(ctx, n_ks=2, shape=((2, 0), (1, 1)), loop_bound=None, symbolic_k
             return NotImplemented
         i = r.data['pos']
         if i >= len(r.data['batches']):
+            st.emit(Ev('READER_END', site=call.site))
             return ex.mk_enum(call.dst_ty, 'None')
         r.data['pos'] = i + 1
         st.emit(Ev('BATCH_READ', args={'idx': i}, site=call.site))
@@ -203,7 +294,8 @@ def run_recover(ctx, n_ks=2, shape=((2, 0), (1, 1)), loop_bound=None, symbolic_k
         m = deref(call.args[0])
         if isinstance(m, Obj) and 'items' in m.data:
             return mk_iter(ex, st, call.dst_ty, m, True)
-        return NotImplemented
+        from ..contract import s_map_values
+        return s_map_values(ex, st, call)
 
     def ov_keys(ex, st, call):
         m = deref(call.args[0])
@@ -265,7 +357,16 @@ def run_recover(ctx, n_ks=2, shape=((2, 0), (1, 1)), loop_bound=None, symbolic_k
         (r'Journal::recover$', ov_journal_recover),
         (r'lsm_tree::Config::open$', ov_tree_open),
         (r'^recover_keyspaces$|recovery::recover_keyspaces$', ov_recover_keyspaces),
-        (r'^recover_sealed_memtables$|recovery::recover_sealed_memtables$', ov_ok_unit),
+    ] + ([(r'^recover_sealed_memtables$|recovery::recover_sealed_memtables$', ov_ok_unit)] if not env.sealed else [
+        (r'JournalReader::new$', ov_raw_reader_new),
+        (r'JournalBatchReader::new$', ov_batch_reader_new),
+        (r'Path::metadata$', ov_metadata),
+        (r'Metadata::len$', ov_metadata_len),
+        (r'AbstractTree>::rotate_memtable$', ov_rotate),
+        (r'AbstractTree>::clear_active_memtable$', ov_clear_active),
+        (r'Memtable::(get_highest_seqno|size)$', ov_memtable_q),
+        (r'JournalManager::enqueue$', ov_enqueue),
+    ]) + [
         (r'Journal::get_reader$', ov_get_reader),
         (r'JournalBatchReader as Iterator>::next$', ov_reader_next),
         (r'JournalBatchReader as IntoIterator>::into_iter$', ov_reader_into_iter),
@@ -274,7 +375,7 @@ def run_recover(ctx, n_ks=2, shape=((2, 0), (1, 1)), loop_bound=None, symbolic_k
         (r'HashMap::keys$', ov_keys),
         (r'AbstractTree>::(get_highest_persisted_seqno|get_highest_seqno)$', ov_tree_seqnos),
     ]
-    ex = ctx.executor(loop_bound=loop_bound or (max(n for n, _ in shape) + len(shape) + n_ks + 2), overrides=overrides, no_inline=OPAQUE,
+    ex = ctx.executor(loop_bound=loop_bound or (max([n + c for n, c in rd_shape] + [1]) + len(rd_shape) + n_ks + 2), overrides=overrides, no_inline=OPAQUE,
                       max_depth=14, timeout_s=240, disabled_faults=('T_CLEAR', 'F_SYNC_ALL', 'J_FLUSH', 'T_READ'))
     # remember inserted seqnos per tree: wrap the generic tree summary
     from .. import contract as K
@@ -289,8 +390,23 @@ def run_recover(ctx, n_ks=2, shape=((2, 0), (1, 1)), loop_bound=None, symbolic_k
             seq = call.args[3] if kind == 'insert' else call.args[2]
             if isinstance(t, Obj):
                 t.data.setdefault('inserted', []).append(seq)
+                t.data.setdefault('mem', []).append(seq)
+        if kind == 'clear':
+            t = deref(call.args[0])
+            if isinstance(t, EnumV):
+                t = t.data.setdefault('as_obj', Obj(t.ty, t.name))
+            if isinstance(t, Obj):
+                t.data['mem'] = []
         return orig_tree(ex_, st, call)
-    ex.contract.overrides.append((__import__('re').compile(r'AbstractTree>::(insert|remove|remove_weak)$'), tree_with_memory))
+    ex.contract.overrides.append((__import__('re').compile(r'AbstractTree>::(insert|remove|remove_weak|clear)$'), tree_with_memory))
+    def key_canon(st, key):
+        k = deref(key)
+        if z3.is_bv(k) and env.ks:
+            for j, ks in enumerate(env.ks):
+                if not ex.feasible(st.pc, k != ks['id']):
+                    return ('ksid', j)
+        return None
+    ex.key_canon = key_canon
     paths = ex.run(fn)
     ctx.functions_encoded[fn.key] = ctx.prog.hashes.get(fn.name, '')
     ctx.paths_total += len(paths); ctx.events_total += sum(len(p.events) for p in paths)
